@@ -21,7 +21,8 @@ ASSUMPTIONS = ["CPython zoneinfo + installed tz data define which wall times exi
                "compound geometries (>2 pre-images, or a shifted wall time that lands in another transition) are only checked for validity"]
 
 ENTRIES = ["datetime(name)", "datetime(Timezone)", "datetime(ZoneInfo)", "create", "local", "set", "at", "on", "replace",
-           "replace(fold)", "parse", "convert", "Timezone.datetime", "naive.in_timezone"]
+           "replace(fold)", "parse", "convert", "Timezone.datetime", "naive.in_timezone", "convert(pendulum naive)", "naive.replace(tzinfo)",
+           "naive.replace(tzinfo, fold)"]
 
 
 def wt(w):
@@ -54,6 +55,8 @@ def build(entry, zone, w, fold, roe):
     if roe:
         if entry == "convert":
             return tz.convert(D.datetime(*f, fold=fold), raise_on_unknown_times=True), fold
+        if entry == "convert(pendulum naive)":
+            return tz.convert(pendulum.naive(*f, fold=fold), raise_on_unknown_times=True), fold
         raise Skip("entry point has no raise_on_unknown_times")
     if entry == "local":
         pendulum.set_local_timezone(tz)
@@ -65,6 +68,13 @@ def build(entry, zone, w, fold, roe):
         return tz.convert(D.datetime(*f, fold=fold)), fold
     if entry == "Timezone.datetime":
         return tz.datetime(*f), 1
+    # a naive *pendulum* value carries its own fold into the zone it is given (the native twin does the same)
+    if entry == "convert(pendulum naive)":
+        return tz.convert(pendulum.naive(*f, fold=fold)), fold
+    if entry == "naive.replace(tzinfo)":
+        return pendulum.naive(*f, fold=fold).replace(tzinfo=tz), fold
+    if entry == "naive.replace(tzinfo, fold)":
+        return pendulum.naive(*f, fold=1 - fold).replace(tzinfo=tz, fold=fold), fold
     if entry == "parse":
         if f[0] < 1000:
             raise Skip("parse entry restricted to 4-digit years")
